@@ -773,6 +773,11 @@ class StabilizerCode(metaclass=ABCMeta):
         code_name = self.id
         picture = 'rotated' if rotated_picture else 'kitaev'
 
+        # Codes without a distinct rotated picture (the 2D color codes) only
+        # define the Kitaev one: the rotated checkbox then changes nothing.
+        if not data[code_name]['stabilizers'].get(picture):
+            picture = 'kitaev'
+
         representation = data[code_name]['stabilizers'][picture][stab_type]
         representation['type'] = stab_type
         representation['location'] = location
